@@ -105,6 +105,19 @@ func c10Regexps(ctx *core.Ctx, cc *CC) {
 					ctx.Check(inc, "C10.R13", construct, cc.IPos(c.Instr),
 						sprintf("pattern %q accepts every string of the reference language %v", pat, ref.domain),
 						sprintf("pattern %q does not match %q, which the reference language %v contains — ", pat, witness, ref.domain)+ref.detail)
+					if ref.role == "validator" {
+						// and the other way round for what must be refused: a variable becomes a
+						// parameter name in every target language, so whatever the validator lets
+						// through (among \w+) starts with a letter
+						inc2, w2, err2 := rx.Includes([]string{`^\w+$`, pat}, `^[A-Za-z]`)
+						if err2 != nil {
+							ctx.Undecided("C10.R13", construct+" refuses non-identifiers", cc.IPos(c.Instr), "language inclusion not decided: "+err2.Error())
+						} else {
+							ctx.Check(inc2, "C10.R13", construct+" refuses non-identifiers", cc.IPos(c.Instr),
+								sprintf("every \\w+ string that pattern %q accepts starts with a letter", pat),
+								sprintf("pattern %q accepts %q, which does not start with a letter: the `invalid prefix variable` diagnostic no longer fires, the compiler exits 0 and emits the name as a parameter (`def publish_X(self, ctx, %s, req)`) — malformed Python/Java/Dart", pat, w2, w2))
+						}
+					}
 				}
 			}
 		}
